@@ -376,3 +376,147 @@ contract(
     note="eigenvectors and timeslice matrices are elements of the abstract matrix ring; T in {1, 2}, Ntrunc = 2 enumerated (the loops are "
          "unrolled); natively the whole method is run on a 3 x 3 correlator matrix that is NOT symmetric",
 )
+
+
+# ---------------------------------------------------------------------------------------------------
+# Corr.GEVP: which timeslices are solved against which, and how the vectors are arranged (state, time)
+
+from pyvc.lib_amat import VALS, M as _MSORT  # noqa: E402
+
+SOLVE = z3.Function("GEVP_SOLVE", _MSORT, _MSORT, _MSORT)
+
+
+def _solver_stub_result(a, ctx):
+    return AMat(SOLVE(a.Gt.t, a.G0.t), a.Gt.n)
+
+
+_SOLVER_STUB = contract(
+    CORR + "::_GEVP_solver", props=[], assumed=True, register=False, name=CORR + "::_GEVP_solver[named result]",
+    params=dict(Gt=Custom(lambda n, c, s: None), G0=Custom(lambda n, c, s: None), method=Custom(lambda n, c, s: None),
+                chol_inv=Custom(lambda n, c, s: None)),
+    result=_solver_stub_result,
+    note="inside Corr.GEVP the solver's result is a symbol in (G(t), G(t0)); what it satisfies is the solver's own contract",
+)
+
+_SYM_STUB = contract(
+    CORR + "::Corr.is_matrix_symmetric", props=[], assumed=True, register=False, name=CORR + "::Corr.is_matrix_symmetric[symmetric input]",
+    params=dict(self=Custom(lambda n, c, s: None)), result=lambda a, ctx: True,
+    note="the correlator matrix is taken to be symmetric (the symmetrisation branch of GEVP is not covered)",
+)
+
+GEVP_T = 4
+
+
+def _gevp_corr(pattern):
+    def make(name, ctx, shape):
+        content = CList([None if pattern[t] == "n" else CList([fresh_mat("%s_G%d" % (name, t), 3)], "list") for t in range(GEVP_T)], "list")
+        return SObj("Corr", {"content": content, "T": GEVP_T, "N": 3})
+    return make
+
+
+def _gevp_getitem(a, ctx):
+    x = a.self.attrs["content"].items[a.idx]
+    return None if x is None else x.items[0]
+
+
+_GETITEM2_STUB = contract(
+    CORR + "::Corr.__getitem__", props=[], assumed=True, register=False, name=CORR + "::Corr.__getitem__[matrix timeslice or None]",
+    params=dict(self=Custom(lambda n, c, s: None), idx=Custom(lambda n, c, s: None)),
+    result=_gevp_getitem,
+    note="for a matrix-valued correlator self[t] is the N x N array of timeslice t, or None",
+)
+
+
+def _G(a, t):
+    x = a.self.attrs["content"].items[t]
+    return None if x is None else VALS(x.items[0].t)
+
+
+def _row_is(cell, mat_term, s):
+    return isinstance(cell, SOpaque) and cell.tag == "amatrow" and cell.payload[1] == s and isinstance(cell.payload[0], AMat) and \
+        wrap(cell.payload[0].t == mat_term)
+
+
+def _gevp_all_native(args):
+    return args["self"].GEVP(args["t0"], ts=args["ts"], sort=args["sort"])
+
+
+def _gevp_all_gen(rng, case):
+    import numpy as np
+    from pyvc.native import repo_module
+    pe = repo_module("pyerrors.obs")
+    co = repo_module("pyerrors.correlators")
+    r = np.random.default_rng(rng.randint(0, 10 ** 6))
+    noise = np.array([0.01, -0.01, 0.02, -0.02, 0.005, -0.005]) * 1e-3
+    E = np.array([0.3, 0.7, 1.2])
+    U = r.normal(size=(3, 3)) + 2 * np.eye(3)
+    pattern = {"full": "dddd", "hole": "ddnd", "tail": "dddn"}[case["self"]]
+    content = []
+    for t in range(GEVP_T):
+        if pattern[t] == "n":
+            content.append(None)
+            continue
+        G = U @ np.diag(np.exp(-E * t)) @ U.T
+        m = np.empty((3, 3), dtype=object)
+        for i in range(3):
+            for j in range(i, 3):
+                m[i, j] = pe.Obs([G[i, j] + noise], ["e"])
+                m[j, i] = m[i, j]
+        content.append(m)
+    return dict(self=co.Corr(content), t0=int(case["t0"][1:]), ts=None, sort="Eigenvalue", vector_obs=False, kwargs={})
+
+
+def _gevp_all_post_native(a, r):
+    import numpy as np
+    from pyvc.native import repo_module
+    co = repo_module("pyerrors.correlators")
+    c = a.self
+    vals = lambda m: np.vectorize(lambda o: o.value)(m)
+    G0 = vals(c.content[a.t0])
+    ok = len(r) == 3 and all(len(x) == c.T for x in r)
+    if ok:
+        for t in range(c.T):
+            if t <= a.t0 or c.content[t] is None:
+                ok = ok and all(r[s][t] is None for s in range(3))
+            else:
+                ref = co._GEVP_solver(vals(c.content[t]), G0)
+                ok = ok and all(r[s][t] is not None and np.allclose(r[s][t], ref[s], rtol=1e-9, atol=1e-12) for s in range(3))
+    return {"vectors arranged as [state][time], solved against G(t0)": bool(ok)}
+
+
+def _gevp_all_post(a, r):
+    if not isinstance(a.self, SObj):
+        return _gevp_all_post_native(a, r)
+    t0 = a.t0
+    out = {}
+    rows = r.items if isinstance(r, CList) else list(r)
+    out["one list per state"] = len(rows) == 3
+    if len(rows) != 3:
+        return out
+    for s in range(3):
+        per_t = rows[s].items if isinstance(rows[s], CList) else list(rows[s])
+        out["state %d: one entry per timeslice" % s] = len(per_t) == GEVP_T
+        if len(per_t) != GEVP_T:
+            continue
+        for t in range(GEVP_T):
+            Gt = _G(a, t)
+            if t <= t0 or Gt is None:
+                out["state %d, t=%d: undefined (t <= t0 or undefined timeslice)" % (s, t)] = per_t[t] is None
+            else:
+                out["state %d, t=%d: row %d of solve(G(t), G(t0))" % (s, t, s)] = _row_is(per_t[t], SOLVE(Gt, _G(a, t0)), s)
+    return out
+
+
+contract(
+    CORR + "::Corr.GEVP", name=CORR + "::Corr.GEVP[sort by eigenvalue]", props=["C16"],
+    overrides={CORR + "::_GEVP_solver": _SOLVER_STUB, CORR + "::Corr.is_matrix_symmetric": _SYM_STUB, CORR + "::Corr.__getitem__": _GETITEM2_STUB},
+    params=dict(self=OneOf(full=Custom(_gevp_corr("dddd")), hole=Custom(_gevp_corr("ddnd")), tail=Custom(_gevp_corr("dddn"))),
+                t0=OneOf(t0=Const(0), t1=Const(1)), ts=Const(None), sort=Const("Eigenvalue"), vector_obs=Const(False), kwargs=Const(CDict())),
+    requires=lambda a: {"G(t0) positive definite": wrap(SPD(VALS(a.self.attrs["content"].items[a.t0].items[0].t)))} if isinstance(a.self, SObj) else {},
+    ensures=_gevp_all_post,
+    axioms=axioms,
+    native_call=_gevp_all_native, gen=_gevp_all_gen, crosscheck=False, refute=False,
+    note="T = 4, N = 3, t0 in {0, 1}, patterns of undefined timeslices enumerated; matrices abstract; the solver is a stub "
+         "(its own contract is separate); symmetric input",
+    not_decided=["sort='Eigenvector' (_sort_vectors: determinants of permuted vector sets)", "vector_obs=True", "the symmetrisation branch"],
+)
